@@ -111,6 +111,27 @@ func c20Scenario() (choice.Scenario, func() any) {
 		inPayload("tag0xa0a0(null)", eBad, func() []byte { return []byte{0xd9, 0xa0, 0xa0, 0xf6} }),
 		inPayload("tag55799(null)", eBad, func() []byte { return []byte{0xd9, 0xd9, 0xf7, 0xf6} }),
 		inPayload("tag55799(tag24(undefined))", eBad, func() []byte { return []byte{0xd9, 0xd9, 0xf7, 0xd8, 0x18, 0xf7} }),
+		inPayload("tag-8-byte-number-a0..(null)", eBad, func() []byte { return []byte{0xdb, 0xa0, 0, 0, 0, 0, 0, 0, 0, 0xf6} }),
+		inPayload("tag-8-byte-number-bf..(undefined)", eBad, func() []byte { return []byte{0xdb, 0xbf, 0xff, 0, 0, 0, 0, 0, 1, 0xf7} }),
+		inPayload("tag-4-byte-number-a0..(null)", eBad, func() []byte { return []byte{0xda, 0xa0, 0, 0, 0, 0xf6} }),
+		inPayload("tag-8-byte-number(tag-8-byte-number(null))", eBad, func() []byte {
+			return []byte{0xdb, 0xa1, 0, 0, 0, 0, 0, 0, 0, 0xdb, 0xb0, 0, 0, 0, 0, 0, 0, 0, 0xf6}
+		}),
+		inPayload("map-unknown-profile+registered-psa-profile", eBad, func() []byte {
+			t, _ := mcbor.DecodeAll(c20ClaimsVariant(base.payload, "http://unknown.example/p", 0, false))
+			t.Put(mcbor.I(-75000), mcbor.T("PSA_IOT_PROFILE_1"))
+			return mcbor.Encode(t)
+		}),
+		inPayload("derived-profile-map-without-its-mandatory-components", eBad, func() []byte {
+			t, _ := mcbor.DecodeAll(c20ClaimsVariant(base.payload, ExtP2Name, 0, false))
+			for i, p := range t.Pairs {
+				if k, _ := p[0].Int(); k == 2399 {
+					t.Pairs = append(t.Pairs[:i], t.Pairs[i+1:]...)
+					break
+				}
+			}
+			return mcbor.Encode(t)
+		}),
 		inPayload("tag(uint)", eBad, func() []byte { return []byte{0xd8, 0xa5, 0x01} }),
 		// claims maps that cannot be decoded: unregistered profile, wrongly typed claim; the same with the profile key
 		// (265) spelled with a non-shortest head
